@@ -323,8 +323,26 @@ def gen_c14(rng: random.Random, tier: str) -> dict:
     }
 
 
+# ------------------------------------------------------------------- C11
+def gen_c11(rng: random.Random, tier: str) -> dict:
+    from dst.workload import passes as P
+    topo = gen_topo(rng, p_attached=0.7, max_managers=2)
+    circ = P.gen_circuit(rng, max_width=4 if tier == 'quick' else 5)
+    wf = P.gen_workflow(rng)
+    funcs = preempt.WORKER_FUNCS + preempt.WORKER_CANCEL_FUNCS
+    return {
+        'topo': topo,
+        'clients': [{'script': [{'op': 'compile_wf', 'wf': wf,
+                                 'circ': circ}]}],
+        'policy': swarm_policy(rng, topo, funcs, p_preempt=0.4),
+        'faults': [],
+        'engine': 'simrt',
+    }
+
+
 GENS = {
     'C07': gen_c07,
+    'C11': gen_c11,
     'C14': gen_c14,
     'C13': gen_c13,
     'C12': gen_c12,
